@@ -595,6 +595,8 @@ def run(ck):
         c18_4c(ck, prog)
         c18_5(ck, prog)
         c18_8(ck, prog)
+        from rules.C07 import c07_9
+        c07_9(ck, prog, 'C18.9')
         # what a new monitor still has outstanding is disposed of by bus_connection_drop_pending_replies
         from rules.C09 import c09_3
         r7 = ck.rule('C18.7', 'dropping the pending replies of a connection (disconnect, BecomeMonitor) removes '
